@@ -205,7 +205,10 @@ def run(ctx):
     path = os.path.join(out, "jit.json")
     try:
         p = subprocess.run([sys.executable, "-m", "vlib.run", "C05", "--tier", ctx.tier, "--mode", "jit",
-                            "--arg", path], cwd=VERIF, stdout=subprocess.DEVNULL)
+                            "--arg", path], cwd=VERIF, stdout=subprocess.DEVNULL,
+                           # thread-count independence is C15's business; 16 spinning numba threads on a busy
+                           # machine make this pass take minutes instead of seconds
+                           env=dict(os.environ, NUMBA_NUM_THREADS="4"))
         if p.returncode != 0 or not os.path.exists(path):
             raise HarnessError(f"jit sub-process failed rc={p.returncode}")
         with open(path) as f:
